@@ -156,9 +156,13 @@ func Add(api ClientApi) http.HandlerFunc {
 				http.Error(w, err.Error(), http.StatusInternalServerError)
 				return
 			}
+			// status and Location have to be set before the body is written,
+			// otherwise the reply goes out as a plain 200 and clients take the
+			// shards document for the result of the insertion.
 			w.Header().Set("Content-Type", "application/json")
+			w.Header().Set("Location", fmt.Sprintf("%s://%s%s", scheme, shards.Shards[shards.LeaderId].HTTPAddr, r.URL.Path))
+			w.WriteHeader(http.StatusMovedPermanently)
 			_, _ = w.Write(out)
-			http.Redirect(w, r, shards.Shards[shards.LeaderId].HTTPAddr, http.StatusMovedPermanently)
 			return
 		default:
 			http.Error(w, err.Error(), http.StatusPreconditionFailed)
@@ -243,9 +247,13 @@ func AddBulk(api ClientApi) http.HandlerFunc {
 				http.Error(w, err.Error(), http.StatusInternalServerError)
 				return
 			}
+			// status and Location have to be set before the body is written,
+			// otherwise the reply goes out as a plain 200 and clients take the
+			// shards document for the result of the insertion.
 			w.Header().Set("Content-Type", "application/json")
+			w.Header().Set("Location", fmt.Sprintf("%s://%s%s", scheme, shards.Shards[shards.LeaderId].HTTPAddr, r.URL.Path))
+			w.WriteHeader(http.StatusMovedPermanently)
 			_, _ = w.Write(out)
-			http.Redirect(w, r, shards.Shards[shards.LeaderId].HTTPAddr, http.StatusMovedPermanently)
 			return
 		default:
 			http.Error(w, err.Error(), http.StatusPreconditionFailed)
